@@ -402,17 +402,22 @@ void session_table_clear(session_table *table) {
     table->all_complete = true;
 }
 
-int derive_session_event(const void *frame, session_table *table, const uint8_t *our_mac) {
+int derive_session_event(const void *frame, size_t frame_len, session_table *table, const uint8_t *our_mac) {
     if (!frame) {
         return -1;
     }
 
 #ifdef LLTD_TESTING
+    (void)frame_len;
     (void)table;
     (void)our_mac;
     return sess_discover_noack;
 #else
     const lltd_demultiplex_header_t *header = (const lltd_demultiplex_header_t *)frame;
+
+    if (frame_len < sizeof(*header)) {
+        return -1;
+    }
 
     if (header->opcode == opcode_reset) {
         static const uint8_t broadcast[6] = {0xFF, 0xFF, 0xFF, 0xFF, 0xFF, 0xFF};
@@ -430,6 +435,11 @@ int derive_session_event(const void *frame, session_table *table, const uint8_t 
         session_entry *existing = NULL;
         const lltd_discover_upper_header_t *disc_header =
             (const lltd_discover_upper_header_t *)(header + 1);
+        size_t fixed_len = sizeof(*header) + sizeof(*disc_header) - sizeof(disc_header->stationList);
+        if (frame_len < fixed_len) {
+            return -1;
+        }
+        size_t max_stations = (frame_len - fixed_len) / sizeof(ethernet_address_t);
         uint16_t generation = lltd_ntohs(disc_header->generation);
         uint16_t xid = lltd_ntohs(header->seqNumber);
 
@@ -443,6 +453,9 @@ int derive_session_event(const void *frame, session_table *table, const uint8_t 
             if (station_count == 0) {
                 acking = true;
             } else {
+                if (station_count > max_stations) {
+                    station_count = (uint16_t)max_stations;
+                }
                 const ethernet_address_t *stations = disc_header->stationList;
                 for (uint16_t i = 0; i < station_count; i++) {
                     if (mac_equal(stations[i].a, our_mac)) {
